@@ -177,6 +177,7 @@ func (g *Gateway) handleWebsocketProtocol(ctx context.Context, c *websocket.Conn
 	handler := NewProcessor(g, t)
 	RegisterTunnel(t, handler)
 	defer RemoveTunnel(t)
+	defer t.Close()
 	handler.Process(ctx)
 }
 
@@ -232,6 +233,8 @@ func (g *Gateway) handleLegacyProtocol(w http.ResponseWriter, r *http.Request, t
 			handler := NewProcessor(g, t)
 			RegisterTunnel(t, handler)
 			defer RemoveTunnel(t)
+			defer c.Delete(t.RDGId)
+			defer t.Close()
 			handler.Process(r.Context())
 		}
 	}
